@@ -78,6 +78,22 @@ func genCase(t *rapid.T, withInvalid bool) *Case {
 		}
 		return c
 	}
+	if rapid.IntRange(0, 7).Draw(t, "commaSplit") == 0 {
+		// steer: an endpoint whose address contains a comma is replaced by the two endpoints it is spelled like, or the reverse
+		pair := rapid.IntRange(0, 1).Draw(t, "cpair")
+		whole, parts := []int{4 + pair}, []int{2 * pair, 2*pair + 1}
+		from, to := whole, parts
+		if rapid.Bool().Draw(t, "creverse") {
+			from, to = parts, whole
+		}
+		other := rapid.IntRange(0, 3).Draw(t, "cother")
+		c.StartDown = nil
+		c.Init = Options{MEs: []ME{{Name: 0, Eps: from}, {Name: 1, Eps: []int{other}}}, Default: rapid.IntRange(0, 1).Draw(t, "cdef")}
+		c.Ops = []Op{{K: "update", Opts: &Options{MEs: []ME{{Name: 0, Eps: to}, {Name: 1, Eps: []int{other}}}, Default: c.Init.Default}},
+			{K: "rpc", Ctx: 0}, {K: "rpc", Ctx: 1}, {K: "rpc", Ctx: 2}, {K: "rpc", Ctx: 3},
+			{K: "update", Opts: &Options{MEs: []ME{{Name: 0, Eps: from}, {Name: 1, Eps: []int{other}}}, Default: c.Init.Default}}, {K: "rpc", Ctx: 2}}
+		return c
+	}
 	kinds := []string{"update", "update", "down", "down", "up", "up", "rpc"}
 	if withInvalid {
 		kinds = append(kinds, "bad", "bad", "bad")
